@@ -19,7 +19,7 @@ _INTERIOR_OPS = [op for op in mutate.OPS if op not in ("append-junk",)]
 
 @st.composite
 def unit(draw: t.Any, side: str, nprep: int, idx: int) -> t.Any:
-    kind = draw(st.sampled_from(["valid", "valid", "interior", "interior", "interior", "paged", "interior-random", "nonseq-outer"]))
+    kind = draw(st.sampled_from(["valid", "valid", "valid-forms", "valid-big", "interior", "interior", "interior", "paged", "interior-random", "nonseq-outer"]))
     rid = draw(st.integers(0, nprep - 1)) if nprep else None
     if side == "server":
         base = gens.memo("c06.server", lambda: gens.message(kinds=["searchRequest", "extendedReq"], filt=gens.filters(max_leaves=4), ids=st.just(0))).map(
@@ -28,6 +28,17 @@ def unit(draw: t.Any, side: str, nprep: int, idx: int) -> t.Any:
         base = gens.memo("c06.client", lambda: gens.message(kinds=["searchResEntry", "searchResRef"], ids=st.just(0)))
     if kind == "valid":
         return ("valid", draw(base), rid)
+    if kind == "valid-forms":
+        # a valid unit in another valid BER form: every length (incl. the outer one) in generated long/padded forms
+        return ("valid-forms", draw(base), rid, draw(st.lists(st.integers(0, 255), min_size=4, max_size=24)))
+    if kind == "valid-big":
+        # a valid unit whose outer length needs 3 length octets (> 65535) or sits at a boundary
+        size = draw(st.sampled_from([120, 250, 65400, 65536, 70000]))
+        if side == "server":
+            m = {"kind": "extendedReq", "id": 1000 + idx, "controls": [], "name": "1.2", "value": b"\x00" * size}
+        else:
+            m = {"kind": "searchResEntry", "id": 0, "controls": [], "name": "cn=big", "attributes": [("a", [b"\x00" * size])]}
+        return ("valid", m, rid)
     if kind == "paged":
         m = dict(draw(base))
         v = draw(st.sampled_from(_PAGED_VALUES))
@@ -100,6 +111,8 @@ def unit_bytes(u: t.Any, ids: t.List[int]) -> t.Tuple[bytes, str, bool]:
     data = rfc4511.encode(m)
     if k == "valid":
         return data, "valid", False
+    if k == "valid-forms":
+        return rfc4511.encode(m, rfc4511.Knobs(u[3], kinds=("length",))), "valid-forms", False
     if k == "paged":
         v = m["controls"][0][3]
         return data, f"paged-value:{'absent' if v is None else v.hex() or 'empty'}", True
